@@ -135,8 +135,10 @@ pub fn scan_op(reader: &mut DeferredReader, f: &str, ty: &str, off: usize, pat: 
         ("u256", "signed_ascii_digits_multi") => "ascii_digits_multi",
         _ => f,
     };
-    trace::rec(json!({"ev":"scall","fn":f,"off":off,"pat":bytes_json(pat),"ty":ty}));
-    let base = json!({"ev":"sret","fn":f,"off":off,"pat":bytes_json(pat),"ty":ty,"panic":false,
+    // offsets near usize::MAX are logged as 2*10^9 + (what is left up to usize::MAX): TLC integers are 32 bit
+    let cap = |x: usize| -> usize { if x > 2_000_000_000 { 2_000_000_000 + (100 - (usize::MAX - x).min(100)) } else { x } };
+    trace::rec(json!({"ev":"scall","fn":f,"off":cap(off),"pat":bytes_json(pat),"ty":ty}));
+    let base = json!({"ev":"sret","fn":f,"off":cap(off),"pat":bytes_json(pat),"ty":ty,"panic":false,
         "end":0,"some":false,"neg":false,"hex":[0]});
     let r = catch(|| match f {
         "tabs_or_spaces" => (None, flussab::text::tabs_or_spaces(reader, off)),
@@ -160,7 +162,7 @@ pub fn scan_op(reader: &mut DeferredReader, f: &str, ty: &str, off: usize, pat: 
     });
     let mut rec = base;
     match r {
-        Ok((None, end)) => rec["end"] = json!(end),
+        Ok((None, end)) => rec["end"] = json!(cap(end)),
         Ok((Some(v), end)) => {
             rec["end"] = json!(end);
             if let Some((neg, mag)) = v {
@@ -235,6 +237,17 @@ pub fn one_history(id: u64, seed: u64, max_ops: usize, max_len: usize, panics: b
     } else {
         (0..len).map(|_| rng.gen_range(1..=255u8)).collect()
     };
+    // now and then a source that stores nothing: the stream is all zeros then, and the heap is salted first so that a
+    // reader which hands out uninitialised memory shows something else
+    let nostore = scan == 0 && rng.gen_range(0..16) == 0;
+    let full: Vec<u8> = if nostore { vec![0u8; full.len()] } else { full };
+    if nostore {
+        for sz in [64usize, 128, 512, 4096, 16384, 32768, 65536] {
+            let salt: Vec<u8> = vec![0xa5; sz];
+            std::hint::black_box(&salt);
+            drop(salt);
+        }
+    }
     let faulty = rng.gen_range(0..3) == 0;
     let limit = if faulty || rng.gen_range(0..4) == 0 {
         rng.gen_range(0..=len)
@@ -250,6 +263,7 @@ pub fn one_history(id: u64, seed: u64, max_ops: usize, max_len: usize, panics: b
     let mut src = Source::new(full.clone(), policy, seed ^ id.rotate_left(17));
     src.limit = limit;
     src.faulty = faulty;
+    src.nostore = nostore;
     src.intr_pm = if rng.gen_range(0..3) == 0 { 250 } else { 0 };
     if panics && rng.gen_range(0..4) == 0 {
         src.overrun_at = Some(rng.gen_range(1..=4));
@@ -303,6 +317,8 @@ pub fn one_history(id: u64, seed: u64, max_ops: usize, max_len: usize, panics: b
         if scan > 0 && rng.gen_range(0..100) < 45 {
             let off = if rng.gen_bool(0.6) { 0 } else { rng.gen_range(0..=6usize) };
             let helpers = ["tabs_or_spaces", "newline", "next_newline", "fixed"];
+            // the helpers at an offset far behind anything that exists: nothing is there, nothing is passed over
+            let far = scan != 2 && rng.gen_range(0..40) == 0;
             let digits = ["ascii_digits", "ascii_digits_multi", "signed_ascii_digits", "signed_ascii_digits_multi"];
             let f = match scan {
                 1 => helpers[rng.gen_range(0..4)],
@@ -311,7 +327,7 @@ pub fn one_history(id: u64, seed: u64, max_ops: usize, max_len: usize, panics: b
             };
             let mut pat: Vec<u8> = vec![];
             if f == "fixed" {
-                let plen = rng.gen_range(0..=4usize);
+                let plen = if rng.gen_range(0..3) == 0 { [5usize, 7, 8, 8, 9, 12, 16, 17][rng.gen_range(0..8)] } else { rng.gen_range(0..=4usize) };
                 // mostly a prefix of what is really there (possibly with the last byte changed)
                 let p0 = reader.position() + off;
                 if rng.gen_bool(0.7) && p0 < stream.len() {
@@ -329,6 +345,12 @@ pub fn one_history(id: u64, seed: u64, max_ops: usize, max_len: usize, panics: b
                 }
             }
             let ty = if rng.gen_range(0..13) == 12 { "u256" } else { INT_TYPES[rng.gen_range(0..12)] };
+            if far {
+                let f = helpers[rng.gen_range(0..4)];
+                let off = [usize::MAX - 20, usize::MAX - 1, usize::MAX - 8][rng.gen_range(0..3)];
+                scan_op(&mut reader, f, ty, off, if f == "fixed" { b"abc" } else { b"" });
+                continue;
+            }
             scan_op(&mut reader, f, ty, off, &pat);
             continue;
         }
@@ -351,7 +373,9 @@ pub fn one_history(id: u64, seed: u64, max_ops: usize, max_len: usize, panics: b
             }
             35..=49 => {
                 let k = rng.gen_range(0..=10usize);
-                trace::rec(json!({"ev":"call","op":"byte_at","arg":k}));
+                // offsets at the very end of the address range are requests like any other (nothing is there)
+                let k = if rng.gen_range(0..30) == 0 { [usize::MAX, usize::MAX - 1, isize::MAX as usize][rng.gen_range(0..3)] } else { k };
+                trace::rec(json!({"ev":"call","op":"byte_at","arg":k.min(2_000_000_000)}));
                 // request_byte() is request_byte_at_offset(0)
                 let r = catch(|| if k == 0 && rng.gen_bool(0.5) { reader.request_byte() } else { reader.request_byte_at_offset(k) });
                 match r {
